@@ -17,6 +17,7 @@ mod xradau;
 mod xbdf;
 mod xcont;
 mod xbdfnum;
+mod xradaunum;
 
 fn main() {
     let args: Vec<String> = std::env::args().collect();
@@ -39,6 +40,7 @@ fn main() {
         "xbdf" => xbdf::run(rest),
         "xcont" => xcont::run(rest),
         "xbdfnum" => xbdfnum::run(rest),
+        "xradaunum" => xradaunum::run(rest),
         "sym-check" => families::sym(rest),
         "mass-check" => families::mass(rest),
         "accuracy-check" => families::accuracy(rest),
